@@ -3319,8 +3319,10 @@ func (r *Resolver) checkPriming() {
 				serverName := strings.ToLower(v6.Header().Name)
 				if nsServers[serverName] {
 					foundServers[serverName] = true
-					if addr, valid := netip.AddrFromSlice(v6.AAAA); valid {
-						endpoint := netip.AddrPortFrom(addr.Unmap(), 53)
+					// The priming response's glue is as unauthenticated as any
+					// referral's: never aim the resolver at itself with it.
+					if addr, valid := usableAddr(v6.AAAA); valid {
+						endpoint := netip.AddrPortFrom(addr, 53)
 						if _, ok := seenEndpoints[endpoint]; !ok {
 							seenEndpoints[endpoint] = struct{}{}
 							tmpservers.List = append(tmpservers.List, authority.NewServerFromAddrPort(endpoint))
@@ -3337,8 +3339,8 @@ func (r *Resolver) checkPriming() {
 			serverName := strings.ToLower(v4.Header().Name)
 			if nsServers[serverName] {
 				foundServers[serverName] = true
-				if addr, valid := netip.AddrFromSlice(v4.A); valid {
-					endpoint := netip.AddrPortFrom(addr.Unmap(), 53)
+				if addr, valid := usableAddr(v4.A); valid {
+					endpoint := netip.AddrPortFrom(addr, 53)
 					if _, ok := seenEndpoints[endpoint]; !ok {
 						seenEndpoints[endpoint] = struct{}{}
 						tmpservers.List = append(tmpservers.List, authority.NewServerFromAddrPort(endpoint))
